@@ -40,7 +40,7 @@ for pid, text, tech in [
      "fuzzing / property-based testing: mutation + token-soup generators with an outcome-classification oracle (Hypothesis; atheris in the thorough tier)"),
     ("C19", "Complete enumeration of the finite vocabulary product (block type x parent context x schema property x position x value alternative x representative value) as minimal document models, plus all parent/child edges, all declared defaults and create(type, version) over all schema files x 7 versions; oracle: reference dictionary, printer log records, round trip, validation messages.",
      "exhaustive enumeration of a finite configuration product with a reference-model oracle"),
-    ("C07", "Exhaustive single-fault sweep over every keyword slot x fault kind x context, plus generated-input search: Hypothesis-drawn schema-valid documents of every root type with 0-2 injected faults at drawn depths and list indexes (each fault confirmed invalid by the Draft-4 evaluator), plus arbitrary generated documents; oracles: by-construction expectation of the named messages, differential against jsonschema Draft 4 over the harness's own inlined schema copy, never-raises, metamorphic relations (value case, hidden keys, key case, list of roots).",
+    ("C07", "Exhaustive single-fault sweep over every keyword slot x fault kind x context, plus generated-input search: Hypothesis-drawn schema-valid documents of every root type with 0-2 injected faults at drawn depths and list indexes (each fault confirmed invalid by the Draft-4 evaluator), plus arbitrary generated documents; oracles: by-construction expectation of the named messages, differential against jsonschema Draft 4 over the harness's own inlined schema copy, never-raises, metamorphic relations (value case, hidden keys, key case, list of roots, add_comments=True).",
      "property-based testing: fault injection with by-construction and differential (reference evaluator) oracles, metamorphic relations (Hypothesis)"),
     ("C08", "Generated-input search: the independent renderer knows the line and column of every token it writes under a Hypothesis-drawn surface; recorded positions of objects, keywords and values are compared with them, and messages for injected faults must carry the offending keyword's / enclosing opener's position.",
      "property-based testing: renderer-known ground truth for positions + fault injection (Hypothesis)"),
@@ -52,7 +52,7 @@ for pid, text, tech in [
      "property-based testing: independent comment scanner, multiset and placement oracles (Hypothesis)"),
     ("C03", "Generated-input search over dictionaries (loaded, built through the dict API, created) and, with a Hypothesis rule-based state machine, over histories of dict-API edits; oracle: an independent character-level reader of the printed text whose event stream must equal the events and MapServer lexical classes derived from the dictionary and the schema slot of each value; mappyfile's parser is never used.",
      "property-based / model-based testing: independent reader oracle, Hypothesis stateful machine for edit histories"),
-    ("C15", "Generated-input search: Hypothesis cuts generated documents into include trees (fan-out, depth 0..7, sub-directories, relative / absolute paths, quoting, comments, CRLF) on the real file system and loads them through open / load / loads from differing working directories; oracle: the harness's own textual substitution, error expectations for depth >= 6 / cycles / missing files with file opens counted by an audit hook, and write-back of unexpanded directives.",
+    ("C15", "Generated-input search: Hypothesis cuts generated documents into include trees (fan-out, depth 0..7, sub-directories, relative / absolute paths, quoting, comments, CRLF) on the real file system and loads them through open / load / loads from differing working directories; oracle: the harness's own textual substitution, error expectations for depth >= 6 / cycles / missing files with file opens counted by an audit hook, write-back of unexpanded directives, and a reload phase (the same paths rewritten or one file removed, loaded again).",
      "property-based testing: differential against textual substitution over generated file trees (Hypothesis)"),
     ("C20", "Generated-input search: Unicode documents through open / load / loads / save / dump / dumps on real files and streams, and the mappyfile command run as real subprocesses over drawn file sets and options; oracle: differential between front ends, string survival, in-process API results as the expectation for CLI output bytes, stdout lines and exit status (boundaries 255 / 256 / 257 always exercised).",
      "property-based testing: differential between front ends, subprocess CLI against in-process API (Hypothesis)"),
@@ -60,7 +60,7 @@ for pid, text, tech in [
      "property-based testing: snapshot oracle, Hypothesis stateful machine (differential reused vs fresh), thread stress vs sequential"),
     ("C16", DOC + "oracle: an independent reader of the printed text checks the layout contract line by line.",
      "property-based testing: independent reader / validity predicate over documents x option sets (Hypothesis)"),
-    ("C17", "Exhaustive breadth-first exploration of every reachable state over a small key/value alphabet with every operation applied in every state, exhaustive operation sequences from the empty dict up to a length bound, and a Hypothesis rule-based state machine for long histories; oracle: reference model (OrderedDict keyed by lower-cased keys + default rule).",
+    ("C17", "Exhaustive breadth-first exploration of every reachable state over a small key/value alphabet with every operation applied in every state, exhaustive operation sequences from the empty dict up to a length bound, a Hypothesis rule-based state machine for long histories, and copy / deepcopy / pickle of generated loaded documents; oracle: reference model (OrderedDict keyed by lower-cased keys + default rule), id-disjointness of all reachable containers after deepcopy.",
      "model-based testing: exhaustive small-scope enumeration + Hypothesis stateful machine against a reference dict"),
     ("C18", "Generated-input search: Hypothesis draws nested dictionaries and type-compatible patches / search lists; oracle: reference implementation of the documented update / find laws, identity and immutability checks.",
      "property-based testing: reference-implementation oracle (Hypothesis)"),
